@@ -119,6 +119,58 @@ def case(spelling, who, state, allow_dirty):
         shutil.rmtree(d, ignore_errors=True)
 
 
+def combo_case(pat_state, other_state, other_rel, allow_dirty):
+    """Two dirty files at once: the pattern file and an unrelated file whose name sorts before / after it.
+    Aborts are required whenever the pattern file is dirty, and whenever a tracked unrelated change is not allowed."""
+    ensure_src()
+    d = tempfile.mkdtemp(prefix="c11c_")
+    try:
+        pat_rel = "src/ver.txt"
+        pat_text = "line one\nversion = 1.2.3\nline three\n"
+        other_text = "nothing to see\n"
+        cfg = (
+            '[bumpver]\ncurrent_version = "1.2.3"\nversion_pattern = "MAJOR.MINOR.PATCH"\ncommit = true\ntag = false\npush = false\n\n'
+            '[bumpver.file_patterns]\n"bumpver.toml" = [\'current_version = "{version}"\']\n"src/ver.txt" = [\'version = {version}\']\n'
+        )
+        _put(d, "bumpver.toml", cfg)
+        _git(d, "init", "-q", ".")
+        _put(d, "keep.md", "k\n")
+        _put(d, "src/keep.py", "k\n")
+        for rel, text, state in ((pat_rel, pat_text, pat_state), (other_rel, other_text, other_state)):
+            if state not in ("added", "untracked"):
+                _put(d, rel, text)
+        _git(d, "add", "-A")
+        _git(d, "commit", "-q", "-m", "init")
+        for rel, text, state in ((pat_rel, pat_text, pat_state), (other_rel, other_text, other_state)):
+            if state in ("added", "untracked"):
+                _put(d, rel, text)
+                if state == "added":
+                    _git(d, "add", rel)
+            else:
+                _apply_state(d, rel, state, text)
+        head0 = _git(d, "rev-parse", "HEAD").strip()
+        porcelain = _git(d, "status", "--porcelain")
+        pat_before = open(os.path.join(d, pat_rel)).read() if os.path.exists(os.path.join(d, pat_rel)) else None
+        rc, out, err = _bumpver(d, "update", "--patch", "--no-fetch", *(["--allow-dirty"] if allow_dirty else []))
+        head1 = _git(d, "rev-parse", "HEAD").strip()
+        pat_after = open(os.path.join(d, pat_rel)).read() if os.path.exists(os.path.join(d, pat_rel)) else None
+        must_abort = pat_state != "clean" or (other_state not in ("clean", "untracked") and not allow_dirty)
+        ctx = f"[pattern file {pat_state}, {other_rel} {other_state}, allow_dirty={allow_dirty}; git status --porcelain: {porcelain!r}]"
+        if must_abort and (rc == 0 or head1 != head0 or pat_after != pat_before):
+            return f"update went ahead (exit {rc}, commit created: {head1 != head0}, pattern file rewritten: {pat_after != pat_before}) {ctx}"
+        if not must_abort and rc != 0:
+            return f"update was blocked (exit {rc}) although nothing that the statement names is dirty {ctx}"
+        return None
+    except Exception as e:  # noqa
+        return f"exception {type(e).__name__}: {e}"
+    finally:
+        shutil.rmtree(d, ignore_errors=True)
+
+
+def replay_combo(pat_state, other_state, other_rel, allow_dirty):
+    return combo_case(pat_state, other_state, other_rel, allow_dirty) is None
+
+
 def replay_case(spelling, who, state, allow_dirty):
     return case(spelling, who, state, allow_dirty) is None
 
@@ -137,7 +189,24 @@ def run(tier="quick", seed=0):
     with mp.get_context("fork").Pool(16) as pool:
         res = pool.starmap(case, cells, chunksize=2)
     bad = [(c, r) for c, r in zip(cells, res) if r is not None]
+    combos = [(ps, os_, rel, allow) for ps in ("modified_unstaged", "modified_staged", "untracked", "added") for os_ in ("modified_unstaged", "untracked", "added") for rel in ("docs/other.txt", "zz/later.txt") for allow in (False, True)]
+    with mp.get_context("fork").Pool(16) as pool:
+        res2 = pool.starmap(combo_case, combos, chunksize=2)
+    bad2 = [(c, r) for c, r in zip(combos, res2) if r is not None]
+    extra = dict(
+        name="C11.real_git_matrix.two_dirty_files_at_once_pattern_file_never_swept_in",
+        kind="B",
+        verdict="held" if not bad2 else "refuted",
+        cases=len(combos),
+        distinct=len(combos),
+        bound=f"{len(combos)} cells: pattern file in 4 dirty states x an unrelated file in 3 dirty states whose path sorts before / after it x --allow-dirty on/off, real git",
+        witness=[dict(cell=list(c), problem=r) for c, r in bad2[:4]],
+        observed=bad2[0][1] if bad2 else None,
+        sample=[list(c) for c in combos[:3]],
+        python_replay=(dict(module="checks.c11", function="replay_combo", args=list(bad2[0][0])) if bad2 else None),
+    )
     return [
+        extra,
         dict(
             name="C11.real_git_matrix.guard_blocks_exactly_what_the_statement_names",
             kind="B",
